@@ -389,3 +389,14 @@ _upd('C17',
      'databases incl. don\'t-care patterns with all completions.',
      'The sweep over the shipped entries is an execution, not a kernel proof (partial); that denormalize never raises on a matching entry and '
      'the don\'t-care lookup are correspondence/search only.')
+_upd('C11',
+     'Theorems on the parser/printer model, for all circuits / texts: parse(format(c)) has the same inputs, outputs and the same gates (as a '
+     'permutation) for every printable well-formed circuit; EVERY accepted line form in ANY layout is read as the statement it denotes — gate '
+     'lines with any number of spaces before/after the name, around "=", before "(", around every operand, the operator in any letter case, '
+     'BUFF, anything after ")"; INPUT/OUTPUT in any case with padded names; name = vdd; comments; blank lines — and a document of such lines '
+     'in ANY declaration order (use before definition included) parses to the circuit with exactly the stated gates, the inputs in INPUT-line '
+     'order and the outputs in OUTPUT-line order, or raises CircuitValidationError iff some operand is defined nowhere; two documents stating '
+     'the same definitions in different orders give circuits with the same valuations. The model is compared with the real parser/printer on '
+     'random circuits and random layouts (leading spaces, junk after the parenthesis, padded declarations, shuffled lines) on every run.',
+     'Which exception class malformed text raises is decided by correspondence only. "Computes what the text denotes" = the parsed gate list is '
+     'the stated one; its function is C01\'s denotation.')
